@@ -248,7 +248,11 @@ def explore(chk):
                 chk.correspondence_failure(dict(case, model=out[i]), "Padding.from_xml_attribute: implementation and model differ")
     # (e) purity of as_percentage_of / fit_to_screen
     for _ in range(300 if chk.tier == "quick" else 3000):
-        l = geo.rand_layout(rng, p_none=0.2)
+        if rng.random() < 0.5:
+            # all-percentage layouts, often overflowing the safe area (fit_to_screen has something to do)
+            l = geo.rand_layout(rng, units=["%"], values=[0, 10, 25, 35, 50, 60, 80, 90, 95], p_none=0.1)
+        else:
+            l = geo.rand_layout(rng, p_none=0.2)
         before = geo.obs_layout(l)
         for f in (lambda: l.as_percentage_of(640, 360), lambda: l.fit_to_screen(), lambda: l.is_relative(), lambda: hash(l)):
             try:
